@@ -240,7 +240,13 @@ def _source_encoding(source):
         if cookie:
             try:
                 encoding = cookie.group(1).decode('ascii')
-                b''.decode(encoding)
+                # The names the tokenizer treats as utf-8 and latin-1, which include editor suffixes like utf-8-unix
+                normal = encoding[:12].lower().replace('_', '-')
+                if normal == 'utf-8' or normal.startswith('utf-8-'):
+                    encoding = 'utf-8'
+                elif normal in ('latin-1', 'iso-8859-1', 'iso-latin-1') or normal.startswith(('latin-1-', 'iso-8859-1-', 'iso-latin-1-')):
+                    encoding = 'iso-8859-1'
+                b'#!'.decode(encoding)
                 return encoding
             except (LookupError, UnicodeDecodeError):
                 return 'utf-8'
